@@ -639,7 +639,7 @@ def _eirr_e_samp(element, e_kin, n):
         e_max = e_kin[1]
         e_samp = 10**np.linspace(np.log10(e_min), np.log10(e_max), n)
     else:
-        e_samp = e_kin
+        e_samp = e_kin.astype(np.float64)
     return e_samp
 
 
@@ -696,7 +696,7 @@ def drxs_energyscan(element, fwhm, e_kin=None, n=1000):
         e_max = e_kin[1]
         e_samp = 10**np.linspace(np.log10(e_min), np.log10(e_max), n)
     else:
-        e_samp = e_kin
+        e_samp = e_kin.astype(np.float64)
     xs_scan = np.zeros((element.z + 1, len(e_samp)))
     for ind, ek in enumerate(e_samp):
         xs_scan[:, ind] = drxs_vec(element, ek, fwhm)
